@@ -19,6 +19,7 @@ import (
 )
 
 type PkgCtx struct {
+	stdPure map[string]*FuncContract // synthesized empty contracts of pure standard library functions
 	prog      *ssa.Program
 	spkg      *ssa.Package
 	tpkg      *types.Package
